@@ -86,9 +86,11 @@ async fn setup(node: &Arc<Node>, gate: &Arc<tokio::sync::Notify>) -> Result<(Vec
     node.send(&dpid, OwnedTerm::atom("poison")).await.map_err(|e| e.to_string())?;
     let reg = node.registry();
     let t0 = std::time::Instant::now();
+    let mut rounds = 0usize;
     while reg.get(&dpid).await.is_some() {
         crate::netbed::drain().await;
-        if t0.elapsed() > Duration::from_secs(5) {
+        rounds += 1;
+        if t0.elapsed() > Duration::from_secs(5) && rounds >= crate::nodebed::MIN_WAIT_ROUNDS {
             return Err("the poisoned process did not terminate".into());
         }
         std::thread::sleep(Duration::from_micros(100));
